@@ -186,6 +186,10 @@ class HoistSetupCallsIntoConditionals(RewritePattern):
         # do not apply if our in_state is not an scf.if
         if op.in_state is None or not isinstance(op.in_state.owner, scf.IfOp):
             return
+        # only hoist a setup that follows the scf.if in the same block: hoisting it out of a nested
+        # region would execute it on paths that did not execute it before
+        if op.parent_block() is not op.in_state.owner.parent_block():
+            return
         # grab some helper vars
         old_in_state = op.in_state
         assert isinstance(old_in_state, OpResult)
